@@ -39,7 +39,7 @@ LIGHT_ARGS = ['ds', 'lem', 'explosion', 'mp', 'mt', 'assert', 'affirming-consequ
 
 def run(rep, logics, d, tag, workers=2, full=False):
     """returns number of violations reported"""
-    g = C.tlc('C04_Exact', GEN_CFG, env={'CASES': '/dev/null'}, out_name='cases.ndjson', tag=f'{tag}mcgen', timeout=600)
+    g = C.tlc('C04_Exact', GEN_CFG, env={'CASES': '/dev/null'}, out_name='cases.ndjson', tag=f'{tag}mcgen', timeout=3000)
     shapes = d / f'{tag}-shapes.ndjson'
     with open(shapes, 'w') as f:
         for line in open(g.out_path):
@@ -102,7 +102,7 @@ def modal_args():
 
 
 def run_modal(rep, logics, d, tag, maxw=3, workers=2, full=False):
-    g = C.tlc('C04_Exact', GEN_CFG, env={'CASES': '/dev/null'}, out_name='cases.ndjson', tag=f'{tag}mmgen', timeout=600)
+    g = C.tlc('C04_Exact', GEN_CFG, env={'CASES': '/dev/null'}, out_name='cases.ndjson', tag=f'{tag}mmgen', timeout=3000)
     shapes = d / f'{tag}-mshapes.ndjson'
     with open(shapes, 'w') as f:
         for line in open(g.out_path):
